@@ -125,6 +125,48 @@ def call(E, name, args, kwargs, st, node):
                 pos = ar.binop('+', pos, sz)
             res.append((s.assume(*facts), tuple(vals)))
         return res
+    if name == "pack_into":
+        import ast as _ast
+        buf, offset, vals = args[1], args[2], list(args[3:])
+        if not isinstance(buf, SeqV):
+            raise EngineError("struct.pack_into into %r" % type(buf).__name__)
+        if not (isinstance(node, _ast.Call) and len(node.args) > 1 and isinstance(node.args[1], (_ast.Name, _ast.Attribute))):
+            raise EngineError("struct.pack_into: the buffer argument must be a plain name")
+        total = size_of(items)
+        ar = Arith(lambda *a: None)
+        ok = b_and(ar.compare('>=', offset, 0), ar.compare('>=', ar.binop('-', buf.length, offset), total))
+        res = []
+        for s, _ in E.partial(st, node, 'struct.error', ok, None):
+            if isinstance(_, Raised):
+                res.append((s, _))
+                continue
+            states = [(s, buf, 0)]
+            vi = 0
+            for ch, sz in items:
+                if ch == 'x':
+                    nxt = []
+                    for s2, b2, pos in states:
+                        for k in range(sz):
+                            b2 = seqs.seq_set(b2, ar.binop('+', offset, pos + k), 0)
+                        nxt.append((s2, b2, pos + sz))
+                    states = nxt
+                    continue
+                v = vals[vi]
+                vi += 1
+                nxt = []
+                for s2, b2, pos in states:
+                    for s3, bb in pack_one(E, s2, node, v, ch, sz, big):
+                        if isinstance(bb, Raised):
+                            res.append((s3, bb))
+                            continue
+                        b3 = b2
+                        for k, byte in enumerate(bb):
+                            b3 = seqs.seq_set(b3, ar.binop('+', offset, pos + k), byte)
+                        nxt.append((s3, b3, pos + sz))
+                states = nxt
+            for s2, b2, pos in states:
+                res.append((E.assign(node.args[1], b2, s2, node), NONE))
+        return res
     raise EngineError("struct.%s not modelled" % name)
 
 
